@@ -15,6 +15,7 @@
     copyWhile the two `while **src != c { *dst = **src; … }` loops
 -/
 import SonicModel.Impl.StrBlock
+import SonicModel.Gen.Consts
 namespace Sonic
 namespace StrIn
 open Gen Impl StrBlock
@@ -154,8 +155,10 @@ def runMany (lossy : Bool) : Buf → List Nat → Option (Buf × List (Nat × Na
     | .ok mem' cnt e => (runMany lossy mem' rest).map (fun r => (r.1, (cnt, e) :: r.2))
     | _ => none
 
-/-- the padding `parse_with_padding` puts behind the text: `x"x` and 61 zero bytes -/
-def pad (t : Buf) : Buf := t ++ (#[120, 34, 120] ++ Array.replicate 61 (0 : UInt8))
+/-- the padding `parse_with_padding` puts behind the text: the bytes and the total size the translator reads from the source
+    (`Gen.paddingBytes` = `x"x`, `Gen.paddingSize` = 64), the rest zero -/
+def padTail : Buf := Sonic.Gen.paddingBytes.toArray ++ Array.replicate (Sonic.Gen.paddingSize - Sonic.Gen.paddingBytes.length) (0 : UInt8)
+def pad (t : Buf) : Buf := t ++ padTail
 
 end StrIn
 end Sonic
